@@ -17,10 +17,12 @@ import Glom.Model.C01Env
     * `validT steps`   a T expression: attribute / item / call / wildcard steps
                        whose arguments are literals or nested T expressions
                        without `'P'` steps; no keyword twice in a call
-    * `validP steps`   the same with plain Path segments allowed at top level;
-                       the Path is rooted at `T` — forced by the proof:
-                       `c18_path_root_counterexample` is the input without it
-                       (`repr(Path(S.a, 'b')) == "Path(T.a, 'b')"`).
+    * `validP steps`   the same with plain Path segments allowed at top level
+    * `aOk root steps` an `A`-rooted Path has no call / wildcard step: such a Path cannot
+                       be built (`_t_child` raises BadSpec), and `Path.__init__` — which
+                       `eval` of the text runs — refuses it likewise
+  `c18_path_root_counterexample` keeps the shape of `_format_path` before commit 2a7aadd
+  (`WF` requires the new one): `repr(Path(S.a, 'b'))` was `"Path(T.a, 'b')"`.
   Arithmetic-operator reprs are outside the property.
 -/
 namespace Glom.Props.C18
@@ -43,22 +45,23 @@ theorem c18_roundtrip_t {L : Type} (F : Facts) (hwf : WF F = true) (root : Strin
   rw [wf_fmt hwf]
   exact ⟨parseObj_fmtT root steps hv, fmtT_norm F1 root steps⟩
 
-/-- **`eval(repr(p))` for Paths rooted at T**: the text is read back as an
-    object with root T and the same steps — a Path, or a T expression when the
-    path has no plain segment (`Path(T.a)` reprs as `T.a`, DESIGN §6.6) — and that
-    object has the same repr. -/
-theorem c18_roundtrip_path {L : Type} (F : Facts) (hwf : WF F = true)
-    (steps : List (Step L)) (hv : validP steps = true) :
-    ∃ y, parseObj (fmtPath F.fmt steps) = some y ∧ y.root = "T" ∧ y.steps = normSteps steps ∧
-      reprObj F.fmt y = fmtPath F.fmt steps := by
+/-- **`eval(repr(p))` for Paths** rooted anywhere (T, S, A): the text is read back as
+    an object with the same root and the same steps — a Path, or a T expression when
+    the path has no plain segment (`Path(T.a)` reprs as `T.a`, DESIGN §6.6) — and that
+    object has the same repr.  A root other than T is written as (the start of) the
+    first part: `Path(S.a, 'b')`, `Path(S, 'a')`, `Path(S)`. -/
+theorem c18_roundtrip_path {L : Type} (F : Facts) (hwf : WF F = true) (root : String)
+    (steps : List (Step L)) (hv : validP steps = true) (hA : aOk root steps = true) :
+    ∃ y, parseObj (fmtPath F.fmt root steps) = some y ∧ y.root = root ∧
+      y.steps = normSteps steps ∧ reprObj F.fmt y = fmtPath F.fmt root steps := by
   rw [wf_fmt hwf]
-  exact parseObj_fmtPath_repr steps hv
+  exact parseObj_fmtPath_repr root steps hv hA
 
 /-- normalising only reorders keyword arguments: it changes neither the repr … -/
 theorem c18_norm_same_repr {L : Type} (F : FmtFacts) (root : String) (steps : List (Step L)) :
     fmtT F root (normSteps steps) = fmtT F root steps ∧
-    fmtPath F (normSteps steps) = fmtPath F steps :=
-  ⟨fmtT_norm F root steps, fmtPath_norm F steps⟩
+    fmtPath F root (normSteps steps) = fmtPath F root steps :=
+  ⟨fmtT_norm F root steps, fmtPath_norm F root steps⟩
 
 /-- … nor, as a dict, the keyword arguments of a call: same keys, same values -/
 theorem c18_norm_kwargs_perm {α : Type} (kwargs : List (String × α)) :
@@ -102,10 +105,15 @@ theorem c18_pyslice {α β : Type} (xs : List α) (a b c : Option Int) :
   simp only [pySlice]
   split <;> simp_all
 
-/-- `Path(p, q)` of two Paths rooted at T has the steps of `p` followed by those of `q`. -/
-theorem c18_concat_steps {L : Type} (p q : List (Step L)) :
-    pathInit [.path "T" p, .path "T" q] = some ("T", p ++ q) := by
-  rw [pathInit_ok _ (by intro x hx; simp at hx; rcases hx with rfl | rfl <;> rfl)]
+/-- `Path(p, q)` of two Paths has the root of `p` and the steps of `p` followed by those of `q`
+    (`q` rooted at T; on an `A` path only attribute / item / segment steps can be appended). -/
+theorem c18_concat_steps {L : Type} (root : String) (p q : List (Step L))
+    (hA : root = "A" → ∀ st ∈ q, st.okOnA = true) :
+    pathInit [.path root p, .path "T" q] = some (root, p ++ q) := by
+  rw [pathInit_rooted_path root p _
+    (by intro x hx; simp only [List.mem_singleton] at hx; subst hx; rfl)
+    (by intro hr st hst; simp only [List.flatMap_cons, List.flatMap_nil, List.append_nil,
+          partSteps] at hst; exact hA hr st hst)]
   simp [partSteps]
 
 /-- renumber the failing segment of the second half -/
@@ -159,14 +167,13 @@ theorem c18_model_checks {L : Type} [BEq (Step L)] [ReflBEq (Step L)] (F : Facts
     simp only [reprObj] at h2
     simp [checkRepr, observeRepr, reprObj, h1, h2, hp, sameObj, sameOps, Obj.root, Obj.steps]
   | pobj r s =>
-    simp only [validObj, Bool.and_eq_true, beq_iff_eq] at hv
-    obtain ⟨hr, hvs⟩ := hv
-    subst hr
-    obtain ⟨y, h1, h2, h3, h4⟩ := c18_roundtrip_path F hwf s hvs
-    have h4' : reprObj F.fmt y = reprObj F.fmt (.pobj "T" s) := h4
-    have h2' : y.root = (Obj.pobj "T" s : C18.Obj L).root := h2
-    have h3' : y.steps = normSteps (Obj.pobj "T" s : C18.Obj L).steps := h3
-    have h1' : parseObj (reprObj F.fmt (.pobj "T" s)) = some y := h1
+    simp only [validObj, Bool.and_eq_true] at hv
+    obtain ⟨⟨_, hvs⟩, hA⟩ := hv
+    obtain ⟨y, h1, h2, h3, h4⟩ := c18_roundtrip_path F hwf r s hvs hA
+    have h4' : reprObj F.fmt y = reprObj F.fmt (.pobj r s) := h4
+    have h2' : y.root = (Obj.pobj r s : C18.Obj L).root := h2
+    have h3' : y.steps = normSteps (Obj.pobj r s : C18.Obj L).steps := h3
+    have h1' : parseObj (reprObj F.fmt (.pobj r s)) = some y := h1
     simp only [checkRepr, observeRepr, h1', hp, Option.map_some, h4', h2', h3']
     simp [sameObj, sameOps]
 
@@ -194,13 +201,23 @@ def exP : List (Step String) := [.seg "'a'", .attr ['b'], .star, .seg "2"]
 
 example : validP exP = true := by simp [exP, validP, validStep]
 
+/-- `Path(S, 'a', T.b.__star__(), 2)` and `Path(A.b, 'a')` are valid objects -/
+example : validObj (.pobj "S" exP) = true := by
+  simp [exP, validObj, validP, validStep, aOk]
+
+example : validObj (.pobj "A" [.attr ['b'], .seg "'a'"] : C18.Obj String) = true := by
+  simp [validObj, validP, validStep, aOk, Step.okOnA]
+
 /-- the hypotheses of `c18_concat` are those of C01 -/
 example : C01.WF (C01.genEnv []) = true ∧
     C01.wfSteps [("P", .str "a"), ("[", .int 1)] = true ∧ C01.wfSteps [(".", .str "b")] = true := by
   decide
 
 /-- the formatter of the tree before commit 0224102 -/
-def F0 : FmtFacts := ⟨false, false, false⟩
+def F0 : FmtFacts := ⟨false, false, false, false⟩
+
+/-- the formatter between commits 0224102 and 2a7aadd: `_format_path` is not given the root -/
+def FP : FmtFacts := ⟨true, true, true, false⟩
 
 end Glom.C18.Examples
 
@@ -224,15 +241,20 @@ theorem c18_wf_counterexample (v : String) :
     rw [parseSteps]
     all_goals simp [isDunder, dunder]
 
-/-- Without the hypothesis that a Path is rooted at `T`: `Path.__repr__` prints the steps
-    only, so the text of `Path(S.a, 'b')` is `Path(T.a, 'b')` and is read back with root
-    `T` — a different object, evaluated against the target instead of the scope.
-    Real glom: `eval(repr(Path(S.a, 'b'))) != Path(S.a, 'b')` (known finding
-    `path_repr_drops_root`). -/
-theorem c18_path_root_counterexample {L : Type} (F : Facts) (hwf : WF F = true)
-    (steps : List (Step L)) (hv : validP steps = true) :
-    ∃ y, parseObj (reprObj F.fmt (.pobj "S" steps)) = some y ∧ y.root = "T" :=
-  let ⟨y, h1, h2, _, _⟩ := c18_roundtrip_path F hwf steps hv
-  ⟨y, h1, h2⟩
+/-- Without `WF` (the shape of `_format_path` before commit 2a7aadd, which was not given the
+    root): the text of `Path(S.a, 'b')` was `Path(T.a, 'b')`, read back with root `T` — a
+    different object, evaluated against the target instead of the scope; and `Path(S.a)` was
+    printed `T.a`. -/
+theorem c18_path_root_counterexample (v : String) :
+    parseObj (fmtPath FP "S" [.attr ['a'], .seg v]) = some (.pobj "T" [.attr ['a'], .seg v]) ∧
+    fmtPath FP "S" [(.attr ['a'] : Step String)] = fmtT FP "T" [.attr ['a']] := by
+  have hd : parseSteps [(Tok.dot ['a'] : Tok String)] = some [.attr ['a']] := by
+    rw [parseSteps_dot _ _ (by decide), parseSteps_nil]; rfl
+  constructor
+  · simp [fmtPath, FP, fmtSteps, assemblePath, groupSteps, Step.isSeg, effRoot, withRootPart,
+      partToks, groupToks, fmtStep, isDunder, dunder, joinSep, parseObj, splitOn, Tok.isComma,
+      dropTrailingEmpty, allSome, parsePart, hd, objOfParts, pathInit, pathStep, tChild]
+  · simp [fmtPath, fmtT, FP, fmtSteps, assemblePath, assembleT, groupSteps, Step.isSeg, effRoot,
+      fmtStep, isDunder, dunder]
 
 end Glom.Props.C18
